@@ -358,6 +358,14 @@ type dispatcherCompleteEvent struct {
 func (e dispatcherCompleteEvent) apply(s *state) {
 	infoHash := e.dispatcher.InfoHash()
 
+	if ctrl, ok := s.torrentControls[infoHash]; ok && ctrl.dispatcher != e.dispatcher {
+		// Stale completion notice: the torrent it belongs to was removed and the
+		// same blob has been requested again since. It says nothing about the
+		// new, still incomplete torrent.
+		s.log("dispatcher", e.dispatcher).Info("Ignoring completion of a replaced dispatcher")
+		return
+	}
+
 	s.conns.ClearBlacklist(infoHash)
 	s.announceQueue.Eject(infoHash)
 	ctrl, ok := s.torrentControls[infoHash]
